@@ -112,7 +112,23 @@ func rootsOf(v ssa.Value, seen map[ssa.Value]bool, depth int) []root {
 	case *ssa.Alloc:
 		// a local variable cell: what was stored into it
 		if _, isStruct := x.Type().Underlying().(*types.Pointer).Elem().Underlying().(*types.Struct); isStruct {
-			return []root{{kind: rFresh, desc: "local composite"}}
+			// a local struct is fresh storage, but a whole-struct copy `g := global` makes its reference-typed fields
+			// (maps, slices, pointers) alias whatever the copied value referred to
+			out := []root{{kind: rFresh, desc: "local composite"}}
+			for _, ref := range *x.Referrers() {
+				if st, ok := ref.(*ssa.Store); ok && st.Addr == x {
+					if _, isConst := st.Val.(*ssa.Const); isConst {
+						continue
+					}
+					for _, r := range rootsOf(st.Val, seen, depth+1) {
+						if r.kind != rFresh {
+							r.desc = "copy of " + r.desc
+							out = append(out, r)
+						}
+					}
+				}
+			}
+			return out
 		}
 		if _, isArr := x.Type().Underlying().(*types.Pointer).Elem().Underlying().(*types.Array); isArr {
 			return []root{{kind: rFresh, desc: "local array"}}
